@@ -41,6 +41,9 @@ thread_local! {
 pub struct XModel<S: Scenario> {
     pub s: std::sync::Arc<S>,
     pub cfg: usize,
+    /// probe verdict per state key: probes are a function of the state, so each state is probed
+    /// once however many transitions lead to it (stateright only deduplicates after `next_state`)
+    pub probed: std::sync::Mutex<HashMap<u128, bool>>,
 }
 
 impl<S: Scenario + Send + 'static> XModel<S>
@@ -113,14 +116,25 @@ where
         path.push(ix);
         let (key, bad, pruned) = self.at(&path, |ctx, m, bad, pruned| {
             let w = self.s.world(ctx);
-            let mut o = StepOut::default();
+            let key = key_of(self.cfg, w.state_hash(), m);
             // like the explorer, do not enter (hence do not probe) a state behind a pruned transition
+            let mut probe_bad = false;
             if !pruned {
-                let snap = w.snap();
-                self.s.probe(ctx, m, &mut o);
-                w.restore(&snap);
+                let known = self.probed.lock().unwrap().get(&key).copied();
+                probe_bad = match known {
+                    Some(b) => b,
+                    None => {
+                        let mut o = StepOut::default();
+                        let snap = w.snap();
+                        self.s.probe(ctx, m, &mut o);
+                        w.restore(&snap);
+                        let b = !o.mismatches.is_empty();
+                        self.probed.lock().unwrap().insert(key, b);
+                        b
+                    }
+                };
             }
-            (key_of(self.cfg, w.state_hash(), m), bad || !o.mismatches.is_empty(), pruned)
+            (key, bad || probe_bad, pruned)
         });
         // the explorer does not enter states behind a pruned transition either
         if pruned && !bad {
@@ -148,7 +162,7 @@ where
     let mut total = 0usize;
     let mut violation = None;
     for cfg in 0..s.n_configs() {
-        let model = XModel { s: s.clone(), cfg };
+        let model = XModel { s: s.clone(), cfg, probed: std::sync::Mutex::new(HashMap::new()) };
         let checker = model.checker().threads(threads).spawn_bfs().join();
         total += checker.unique_state_count();
         if let Some(p) = checker.discovery("model and implementation agree") {
